@@ -550,6 +550,10 @@ func (eng *Engine) checkProperty(prop string, timeoutMs int, all_ bool, verbose 
 	}
 	rep.Infeasible = postVacuity(rep.All)
 	rep.All = append(rep.All, specFail...)
+	if fl := eng.flagObligations(prop); len(fl) > 0 {
+		rep.Funcs = append(rep.Funcs, &FuncResult{Key: "flags", Obls: fl})
+		rep.All = append(rep.All, fl...)
+	}
 	if sh := eng.shapeObligations(prop); len(sh) > 0 {
 		rep.Funcs = append(rep.Funcs, &FuncResult{Key: "shape", Obls: sh})
 		rep.All = append(rep.All, sh...)
